@@ -85,6 +85,109 @@ type Term struct {
 	ID      int
 	Name    string // for OVar
 	NonBV   bool   // contains floating point or uninterpreted function terms
+	UB      uint64 // cheap unsigned upper bound of a bit-vector term
+}
+
+func computeUB(t *Term) uint64 {
+	if t.Sort != SBV {
+		return 1
+	}
+	m := mask(t.W)
+	ub := func(x *Term) uint64 {
+		if x.Op == OConst {
+			return x.K
+		}
+		return x.UB
+	}
+	switch t.Op {
+	case OConst:
+		return t.K
+	case OAnd:
+		a, b := ub(t.A), ub(t.B)
+		if a < b {
+			return a
+		}
+		return b
+	case OOr, OXor:
+		// bounded by the next power of two minus one of the larger bound
+		a, b := ub(t.A), ub(t.B)
+		if b > a {
+			a = b
+		}
+		if a == 0 {
+			return 0
+		}
+		n := uint64(1)<<uint(bits.Len64(a)) - 1
+		if bits.Len64(a) >= 64 {
+			n = ^uint64(0)
+		}
+		return n & m
+	case OLshr:
+		if t.B.IsConst() {
+			if t.B.K >= uint64(t.W) {
+				return 0
+			}
+			return ub(t.A) >> t.B.K
+		}
+		return ub(t.A)
+	case OZext:
+		return ub(t.A)
+	case OExtract:
+		hi, lo := uint8(t.K>>8), uint8(t.K&0xff)
+		if lo == 0 {
+			a := ub(t.A)
+			if a <= mask(hi+1) {
+				return a
+			}
+		}
+		return m
+	case OURem:
+		if t.B.IsConst() && t.B.K > 0 {
+			return t.B.K - 1
+		}
+		return ub(t.A)
+	case OUDiv:
+		if t.B.IsConst() && t.B.K > 0 {
+			return ub(t.A) / t.B.K
+		}
+		return ub(t.A)
+	case OIte:
+		a, b := ub(t.B), ub(t.C)
+		if a > b {
+			return a
+		}
+		return b
+	case OTable:
+		var mx uint64
+		for _, v := range ts.tables[t.K].vals {
+			if v > mx {
+				mx = v
+			}
+		}
+		return mx
+	case OAdd:
+		a, b := ub(t.A), ub(t.B)
+		if a+b >= a && a+b <= m {
+			return a + b
+		}
+		return m
+	case OShl:
+		if t.B.IsConst() && t.B.K < 64 {
+			a := ub(t.A)
+			if bits.Len64(a)+int(t.B.K) <= int(t.W) {
+				return a << t.B.K
+			}
+		}
+		return m
+	case OMul:
+		a, b := ub(t.A), ub(t.B)
+		hi, lo := bits.Mul64(a, b)
+		if hi == 0 && lo <= m {
+			return lo
+		}
+		return m
+	}
+	return m
 }
 
 type termKey struct {
@@ -140,6 +243,7 @@ func (s *TermStore) mk(op Op, sort Sort, w uint8, a, b, c *Term, k uint64) *Term
 		t = &Term{Op: op, Sort: sort, W: w, A: a, B: b, C: c, K: k, ID: len(s.all)}
 		t.NonBV = sort == SF32 || sort == SF64 || op == OUF || op >= OFPFromBits ||
 			(a != nil && a.NonBV) || (b != nil && b.NonBV) || (c != nil && c.NonBV)
+		t.UB = computeUB(t)
 		s.all = append(s.all, t)
 		s.tab[key] = t
 	}
@@ -185,7 +289,7 @@ func Var(name string, sort Sort, w uint8) *Term {
 		}
 		return t
 	}
-	t := &Term{Op: OVar, Sort: sort, W: w, ID: len(ts.all), Name: name, K: uint64(len(ts.vars)), NonBV: sort == SF32 || sort == SF64}
+	t := &Term{Op: OVar, Sort: sort, W: w, ID: len(ts.all), Name: name, K: uint64(len(ts.vars)), NonBV: sort == SF32 || sort == SF64, UB: mask(w)}
 	ts.all = append(ts.all, t)
 	ts.vars = append(ts.vars, t)
 	ts.byName[name] = t
@@ -612,6 +716,19 @@ func Cmp(op Op, a, b *Term) *Term {
 	}
 	if b.IsConst() && (op == OUlt) && b.K == 0 {
 		return BoolT(false)
+	}
+	if a.Sort == SBV && (op == OUlt || op == OUle) {
+		// decided by cheap upper bounds
+		if b.IsConst() && !a.IsConst() {
+			if (op == OUlt && a.UB < b.K) || (op == OUle && a.UB <= b.K) {
+				return BoolT(true)
+			}
+		}
+		if a.IsConst() && !b.IsConst() {
+			if (op == OUlt && a.K >= b.UB) || (op == OUle && a.K > b.UB) {
+				return BoolT(false)
+			}
+		}
 	}
 	if a.IsConst() && (op == OUle) && a.K == 0 {
 		return BoolT(true)
